@@ -68,8 +68,17 @@ async fn start_server(exe: &str, store: &str, buffer: usize) -> Server {
 struct LReq { key: String, b: i64, count: i64, period: i64, q: Option<i64> }
 impl LReq { fn json(&self) -> String { format!("[{:?},{},{},{},{}]", self.key, self.b, self.count, self.period, self.q.map(|x| x.to_string()).unwrap_or("null".into())) } }
 
+/// requests that got no reply at all; after two of them the server is given up as unresponsive (every further request
+/// would cost another time-out)
+static NO_REPLY: std::sync::atomic::AtomicU64 = std::sync::atomic::AtomicU64::new(0);
+fn unresponsive() -> bool { NO_REPLY.load(std::sync::atomic::Ordering::SeqCst) >= 2 }
+
 async fn with_timeout<F: std::future::Future<Output = Wire>>(f: F) -> Wire {
-    match tokio::time::timeout(Duration::from_secs(10), f).await { Ok(w) => w, Err(_) => Wire::Broken("no reply within 10 s".into()) }
+    if unresponsive() { return Wire::Broken("not sent: the server stopped answering".into()); }
+    match tokio::time::timeout(Duration::from_secs(4), f).await {
+        Ok(w) => w,
+        Err(_) => { NO_REPLY.fetch_add(1, std::sync::atomic::Ordering::SeqCst); Wire::Broken("no reply within 4 s".into()) }
+    }
 }
 
 /// raw HTTP/1.1 exchange on a fresh connection; returns (status, body)
@@ -347,6 +356,80 @@ async fn burst(srv: std::sync::Arc<Server>, rng: &mut Rng, cases: u64, tag: &str
     }
 }
 
+
+/// C12 / C09 on PERSISTENT connections: three unit requests on one connection (burst 2, one token per 300 ms), an idle gap of
+/// 1000 ms on that connection, then one more request: the decision must be the library's for the time the request ARRIVES.
+async fn idle(srv: &Server, rounds: u64, tag: &str) {
+    for c in 0..rounds {
+        for proto in 0..3u64 {
+            let r = LReq { key: format!("{tag}idle{c}_{proto}"), b: 2, count: 10, period: 3, q: Some(1) };
+            let mut ws: Vec<Wire> = Vec::new();
+            let t0 = Instant::now();
+            let mut first3_ms: u128 = 0;
+            match proto {
+                2 => {
+                    if let Ok(mut s) = TcpStream::connect(("127.0.0.1", srv.redis)).await {
+                        let _ = s.set_nodelay(true);
+                        for i in 0..4 {
+                            if i == 3 { first3_ms = t0.elapsed().as_millis(); tokio::time::sleep(Duration::from_millis(1000)).await; }
+                            if s.write_all(&resp_cmd(&r, i)).await.is_err() { ws.push(Wire::Broken("write failed".into())); break; }
+                            let mut buf = Vec::new(); let mut tmp = [0u8; 512];
+                            let w = loop {
+                                if let Some(w) = parse_resp_reply(&buf) { break w; }
+                                match tokio::time::timeout(Duration::from_secs(5), s.read(&mut tmp)).await { Ok(Ok(0)) => break Wire::Err("resp:closed".into()), Ok(Ok(n)) => buf.extend_from_slice(&tmp[..n]), _ => break Wire::Broken("no reply".into()) }
+                            };
+                            ws.push(w);
+                        }
+                    }
+                }
+                1 => {
+                    let ep = tonic::transport::Channel::from_shared(format!("http://127.0.0.1:{}", srv.grpc)).unwrap();
+                    if let Ok(ch) = ep.connect().await {
+                        let mut g = tonic::client::Grpc::new(ch);
+                        for i in 0..4 {
+                            if i == 3 { first3_ms = t0.elapsed().as_millis(); tokio::time::sleep(Duration::from_millis(1000)).await; }
+                            if g.ready().await.is_err() { ws.push(Wire::Broken("grpc not ready".into())); break; }
+                            let codec: tonic_prost::ProstCodec<PReq, PResp> = tonic_prost::ProstCodec::default();
+                            let path = tonic::codegen::http::uri::PathAndQuery::from_static("/throttlecrab.RateLimiter/Throttle");
+                            let req = PReq { key: r.key.clone(), max_burst: 2, count_per_period: 10, period: 3, quantity: 1 };
+                            ws.push(match g.unary(tonic::Request::new(req), path, codec).await {
+                                Ok(resp) => { let m = resp.into_inner(); Wire::Ok { a: m.allowed, lim: m.limit as i64, rem: m.remaining as i64, reset: m.reset_after as i64, retry: m.retry_after as i64 } }
+                                Err(st) => Wire::Err(format!("grpc:{:?}", st.code())),
+                            });
+                        }
+                    }
+                }
+                _ => {
+                    // HTTP/1.1 keep-alive on one connection
+                    if let Ok(mut s) = TcpStream::connect(("127.0.0.1", srv.http)).await {
+                        let _ = s.set_nodelay(true);
+                        for i in 0..4 {
+                            if i == 3 { first3_ms = t0.elapsed().as_millis(); tokio::time::sleep(Duration::from_millis(1000)).await; }
+                            let body = http_body(&r, i);
+                            let req = format!("POST /throttle HTTP/1.1\r\nHost: x\r\nContent-Type: application/json\r\nContent-Length: {}\r\nConnection: keep-alive\r\n\r\n{}", body.len(), body);
+                            if s.write_all(req.as_bytes()).await.is_err() { ws.push(Wire::Broken("write failed".into())); break; }
+                            let mut buf: Vec<u8> = Vec::new(); let mut tmp = [0u8; 2048];
+                            let res: Result<(u16, String), String> = loop {
+                                if let Some(pos) = find(&buf, b"\r\n\r\n") {
+                                    let head = String::from_utf8_lossy(&buf[..pos]).to_lowercase();
+                                    let cl = head.lines().find_map(|l| l.strip_prefix("content-length:").map(|v| v.trim().parse::<usize>().unwrap_or(0))).unwrap_or(0);
+                                    if buf.len() >= pos + 4 + cl {
+                                        let st: u16 = head.split_whitespace().nth(1).and_then(|x| x.parse().ok()).unwrap_or(0);
+                                        break Ok((st, String::from_utf8_lossy(&buf[pos + 4..pos + 4 + cl]).to_string()));
+                                    }
+                                }
+                                match tokio::time::timeout(Duration::from_secs(5), s.read(&mut tmp)).await { Ok(Ok(0)) => break Err("closed".into()), Ok(Ok(n)) => buf.extend_from_slice(&tmp[..n]), _ => break Err("no reply".into()) }
+                            };
+                            ws.push(parse_http(res));
+                        }
+                    }
+                }
+            }
+            println!("{{\"mode\":\"idle\",\"round\":{c},\"proto\":{proto},\"first3_ms\":{first3_ms},\"wires\":[{}]}}", ws.iter().map(|w| w.json()).collect::<Vec<_>>().join(","));
+        }
+    }
+}
+
 async fn poison(srv: &Server, rng: &mut Rng, cases: u64, tag: &str) {
     let ext: &[i64] = &[i64::MAX, i64::MIN, -1, 0, 1, 2147483647, 4294967296, 9223372036, 9223372037, 1000000007];
     for c in 0..cases {
@@ -384,7 +467,7 @@ async fn poison(srv: &Server, rng: &mut Rng, cases: u64, tag: &str) {
             let key = format!("{tag}slow{c}");
             let ncmd = 8usize;
             let mut res: Vec<String> = Vec::new();
-            match TcpStream::connect(("127.0.0.1", srv.redis)).await {
+            match if unresponsive() { Err(std::io::Error::new(std::io::ErrorKind::Other, "server stopped answering")) } else { TcpStream::connect(("127.0.0.1", srv.redis)).await } {
                 Err(e) => res.push(format!("{{\"broken\":{:?}}}", e.to_string())),
                 Ok(mut s) => {
                     let _ = s.set_nodelay(true);
@@ -404,7 +487,7 @@ async fn poison(srv: &Server, rng: &mut Rng, cases: u64, tag: &str) {
                         let mut tmp = [0u8; 512];
                         let w = loop {
                             if let Some(w) = parse_resp_reply(&buf) { break w; }
-                            match tokio::time::timeout(Duration::from_secs(5), s.read(&mut tmp)).await {
+                            match tokio::time::timeout(Duration::from_secs(3), s.read(&mut tmp)).await {
                                 Ok(Ok(0)) => break Wire::Err("resp:closed".into()),
                                 Ok(Ok(n)) => buf.extend_from_slice(&tmp[..n]),
                                 Ok(Err(e)) => break Wire::Err(format!("resp:io:{e}")),
@@ -428,7 +511,8 @@ async fn poison(srv: &Server, rng: &mut Rng, cases: u64, tag: &str) {
             probes.push(format!("{{\"proto\":{proto},\"b\":{b},\"first\":{},\"second_other_proto\":{}}}", w1.json(), w2.json()));
         }
         let health = http_raw(srv.http, b"GET /health HTTP/1.1\r\nHost: x\r\nConnection: close\r\n\r\n", false).await.map(|(s, b)| s == 200 && b == "OK").unwrap_or(false);
-        println!("{{\"mode\":\"poison\",\"case\":{c},\"prefix\":[{}],\"slow_client\":{slow},\"probes\":[{}],\"health\":{health}}}", prefix.join(","), probes.join(","));
+        println!("{{\"mode\":\"poison\",\"case\":{c},\"prefix\":[{}],\"slow_client\":{slow},\"probes\":[{}],\"health\":{health},\"unresponsive\":{}}}", prefix.join(","), probes.join(","), unresponsive());
+        if unresponsive() { break; }
     }
 }
 
@@ -443,10 +527,12 @@ async fn main() {
         let buffer = *rng.pick(&[1usize, 2, 100000]);
         let srv = std::sync::Arc::new(start_server(&exe, store, buffer).await);
         let tag = format!("s{seed}_{si}_");
+        NO_REPLY.store(0, std::sync::atomic::Ordering::SeqCst);
         println!("{{\"mode\":\"server\",\"store\":{:?},\"buffer\":{buffer}}}", store);
         match mode.as_str() {
             "fidelity" => fidelity(&srv, &mut rng, cases, &tag).await,
             "burst" => burst(srv.clone(), &mut rng, cases, &tag).await,
+            "idle" => idle(&srv, cases, &tag).await,
             _ => poison(&srv, &mut rng, cases, &tag).await,
         }
         let mut s = match std::sync::Arc::try_unwrap(srv) { Ok(s) => s, Err(_) => panic!("server handle still shared") };
